@@ -13,6 +13,12 @@ Op descriptors (JSON-able lists), the unit of generation and replay:
   any op may end with "+spelled": every optional argument of the call is written out as its documented default
   (add_atom(…, charge=None), new_atom(…, isotope=None), connect(…, label=None), remove_substituent(…, ap_label=None));
   without it the optional arguments are omitted where the op allows
+  ["clone", "shallow"|"deepcopy"|"pickle"|"ctor", "keep"|"drop"]   copy.copy(mol) | copy.deepcopy(mol) | pickle round trip | type(mol)(mol); the copy is kept
+                                                            alive or dropped and garbage-collected — the molecule under edit must not notice
+  ["setq", n, "array"|"list"|"f32"]                         mol.atomic_charges = <array of the caller>, which the caller then overwrites in place
+  ["setc", n]                                               mol.coords = <array of the caller>, overwritten afterwards
+  ["scribble"]                                              in-place writes to every array the molecule was built from / given (the clone source's coords and
+                                                            charges, the ensemble's arrays, keyword arrays of the constructor, arrays assigned earlier)
   ["vedit", k, what, n]                                     an edit THROUGH views[k]: delbond-own | delbond-parent | append-parentbond | append-new |
                                                             append-foreign | connect | delatom | addatom | addh
   ["new", elem, label|None, [x,y,z]]                        mol.new_atom(elem, label=.., coord=..)
@@ -72,6 +78,7 @@ class Runner:
         self.coord_codes = {("nan", "nan", "nan"): 0}
         self.code_vals = {0: (float("nan"),) * 3}
         self.views = []                       # [(Substructure, [atom objects])]
+        self.alias = []                       # arrays of the caller / of the source the molecule must not depend on
         self.charge_codes = {_bits(0.0): 0}
         self.label_codes: dict[str, int] = {}
         self.atom_ids: dict[int, str] = {}   # id(obj) -> "e3" / "o5"
@@ -105,6 +112,28 @@ class Runner:
             m.connect(0, 1)
             m.connect(1, 2)
             m.connect(0, 3)
+        elif start in ("clonesrc", "clonekw", "fromconf"):
+            # the molecule is built FROM arrays that stay with somebody else, who writes to them later (op "scribble")
+            if start == "fromconf":
+                ens = ml.ConformerEnsemble.load_mol2(ml.files.pentane_confs_mol2)
+                ens.atomic_charges = np.array([[0.125 * (i + 1) + c for i in range(ens.n_atoms)] for c in range(ens.n_conformers)])
+                self.keep.append(ens)
+                m = self.cls(ens[1])
+                self.alias += [ens.atomic_charges, ens.coords]
+            else:
+                src = self.cls.load_mol2(ml.files.dendrobine_mol2)
+                if self.kind == "m":
+                    src.atomic_charges = np.array([0.125 * (i + 1) for i in range(src.n_atoms)])
+                self.keep.append(src)
+                if start == "clonesrc":
+                    m = self.cls(src)
+                    self.alias += [src.coords] + ([src.atomic_charges] if self.kind == "m" else [])
+                else:
+                    carr = np.array(src.coords) + 0.5
+                    qarr = np.array([0.25 * (i + 1) for i in range(src.n_atoms)], dtype=np.float64)
+                    m = self.cls(src, coords=carr, atomic_charges=qarr) if self.kind == "m" else self.cls(src, coords=carr)
+                    self.alias += [carr, qarr, src.coords]
+            return m
         else:
             raise ValueError(start)
         if self.kind == "m":
@@ -442,6 +471,46 @@ class Runner:
                             v = m.substructure([self.ref_py(r) for r in refs])
                         self.views.append((v, list(v.atoms)))
                         self.extra = ",".join(self.atom_ids.get(id(a), "?") for a in v.atoms)
+                    elif kind == "clone":
+                        import copy as _copy
+                        import gc
+                        import pickle as _pickle
+                        token = "vlocal"
+                        route, keepit = op[1], op[2]
+                        c = (_copy.copy(m) if route == "shallow" else _copy.deepcopy(m) if route == "deepcopy" else
+                             _pickle.loads(_pickle.dumps(m)) if route == "pickle" else type(m)(m))
+                        if keepit == "keep":
+                            self.keep.append(c)
+                        else:
+                            del c          # no reference cycles (parents are weak references): the copy is gone at once
+                    elif kind == "scribble":
+                        token = "vlocal"
+                        for arr in self.alias:
+                            arr[...] = arr + 1000.0
+                    elif kind == "setq":
+                        n_at = m.n_atoms
+                        vals = [0.03125 * (op[1] % 97 + 1) + i for i in range(n_at)]
+                        token = "setq " + (",".join(str(self.charge_code(np.float32(x) if op[2] == "f32" else x)) for x in vals) or "-")
+                        arr = vals if op[2] == "list" else np.array(vals, dtype=np.float32 if op[2] == "f32" else np.float64)
+                        m.atomic_charges = arr
+                        newq = [self.charge_code(np.float32(x) if op[2] == "f32" else x) for x in vals]
+                        if not isinstance(arr, list):
+                            arr[...] = -999.0          # the caller re-uses its array
+                            self.alias.append(arr)
+                        for a, qc in zip(list(m.atoms), newq):
+                            if id(a) in self.given:
+                                self.given[id(a)] = (self.given[id(a)][0], qc)
+                    elif kind == "setc":
+                        n_at = m.n_atoms
+                        new = np.array([[2000.0 + op[1] + k, 0.5 * k, -1.0 - k] for k in range(n_at)], dtype=np.float64).reshape(n_at, 3)
+                        codes = [self.coord_code(r) for r in new]
+                        token = ("vwrite " + (",".join(self.atom_ids[id(a)] for a in m.atoms) or "-") + " " + (",".join(map(str, codes)) or "-"))
+                        m.coords = new
+                        new[...] = -999.0
+                        self.alias.append(new)
+                        for a, cc in zip(list(m.atoms), codes):
+                            if id(a) in self.given:
+                                self.given[id(a)] = (cc, self.given[id(a)][1])
                     elif kind == "vedit":
                         v, vatoms = self.views[op[1]]
                         what, nn = op[2], op[3]
